@@ -10,6 +10,7 @@ mod functors;
 mod gen;
 mod iso;
 mod model;
+mod optics;
 mod oracle;
 mod mon;
 mod rng;
